@@ -46,7 +46,11 @@ var c08Ress = []string{"guess", "simple", "guess-map", "gobuild-hints", "gobuild
 func importTemplates() []gen.Template { return gen.Load("imports.txt") }
 
 var stdWorld = oracle.StdWorld()
-var stdNames = stdWorld.Names()
+var stdNames = func() map[string]string {
+	m := stdWorld.Names()
+	m["C"] = "C" // the cgo pseudo package, for files type-checked with FakeImportC
+	return m
+}()
 
 func init() {
 	core.Register(&core.Prop{
@@ -235,13 +239,8 @@ func decorateWith(src, dec string) (df *dst.File, d *decorator.Decorator, applic
 		if cerr != nil {
 			return nil, nil, false, nil
 		}
-		for _, is := range chk.Files[0].Imports {
-			if is.Path.Value == `"C"` {
-				// cgo files reach gotypes only as preprocessed files, which Load does not decorate; the
-				// "C" pseudo package of types.Config.FakeImportC is not a real configuration
-				return nil, nil, false, nil
-			}
-		}
+		// (cgo files are type-checked with types.Config.FakeImportC, which makes "C" a package whose
+		// references collapse like any other qualified identifier; restorer resolvers name it "C")
 		d = decorator.NewDecoratorWithImports(chk.Fset, localPath, gotypes.New(chk.Info.Uses))
 		df, err = d.DecorateFile(chk.Files[0])
 		return df, d, true, err
@@ -288,9 +287,11 @@ func restorerResolver(res string) resolver.RestorerResolver {
 	panic("unknown restorer resolver " + res)
 }
 
-func identPaths(f *dst.File) []string {
+func identPaths(f *dst.File) []string { return identPathsOf(f) }
+
+func identPathsOf(root dst.Node) []string {
 	var out []string
-	dst.Inspect(f, func(n dst.Node) bool {
+	dst.Inspect(root, func(n dst.Node) bool {
 		if id, ok := n.(*dst.Ident); ok {
 			out = append(out, id.Name+"@"+id.Path)
 		}
